@@ -93,6 +93,7 @@ fn main() {
         "hub" => run_engine(engines::hub::HubEngine::new(), mode, rest),
         "reload" => run_engine(engines::reload::ReloadEngine::new(), mode, rest),
         "reloadloop" => run_engine(engines::reload::ReloadLoopEngine::new(), mode, rest),
+        "control" => run_engine(engines::control::ControlEngine::new(), mode, rest),
         _ => {
             eprintln!("unknown engine {engine}");
             std::process::exit(2)
